@@ -193,7 +193,44 @@ pub fn timeout_address<S: Src>(s: &mut S) {
     s.reached("c15.timeout_address");
 }
 
+/// The call chain of a runtime error is visited from the innermost frame outwards. Three call
+/// frames (the base frame at call site 0 and two more with solver-chosen call-site addresses),
+/// a missing native fails; the trace is really built (against an empty trace map, so no entry
+/// is cloned) and the hook in the frame loop records the call-site address of every frame in
+/// the order the interpreter visits them.
+pub fn call_chain_order<S: Src>(s: &mut S) {
+    let mut rig = Rig::new_with_trace(8, 4, 1 << 16);
+    rig.prog = small_program();
+    let a1 = s.u32();
+    let a2 = s.u32();
+    let mut a = Asm::new();
+    a.op(op::SCALAR_NIL);
+    let fail_at = a.pos();
+    let h = Handle::from_bytes(b"nope");
+    a.op(op::CALL_NATIVE).bytes(bytemuck::bytes_of(&h));
+    a.exit();
+    assert!(rig.vm.runtime_data.verif_push_frame(a1, 0, 0, None), "harness.frame");
+    assert!(rig.vm.runtime_data.verif_push_frame(a2, 0, 0, None), "harness.frame");
+    cao_lang::verif_hooks::reset_error_chain();
+    let (res, _) = rig.run(a);
+    match &res {
+        Ok(()) => assert!(false, "C15.step.instruction_fails"),
+        Err(e) => assert!(kind_of(&e.payload) == E_PROC_NOT_FOUND, "C15.step.error_kind"),
+    }
+    assert!(cao_lang::verif_hooks::last_error_addr() == fail_at as u64, "C15.trace.error_is_attributed_to_the_failing_instructions_own_address");
+    let (n, chain) = cao_lang::verif_hooks::error_chain();
+    assert!(n == 3, "C15.trace.every_active_frame_is_visited_once");
+    assert!(chain[0] == a2 as u64, "C15.trace.call_chain_starts_with_the_innermost_call");
+    assert!(chain[1] == a1 as u64, "C15.trace.call_chain_goes_outwards");
+    assert!(chain[2] == 0, "C15.trace.call_chain_ends_with_the_outermost_frame");
+    std::mem::forget(res);
+    std::mem::forget(rig);
+    s.reached("c15.call_chain_order");
+}
+
 crate::harnesses! {
+    #[kani::stub(alloc::fmt::format, crate::stub_format)]
+    c15_call_chain_order / 18 => call_chain_order;
     #[kani::stub(alloc::fmt::format, crate::stub_format)]
     c15_addr_missing_native / 18 => attributed_address::<_, 0>;
     #[kani::stub(alloc::fmt::format, crate::stub_format)]
